@@ -187,6 +187,9 @@ func checkC15(c *Ctx, r *Result, tier string) {
 	}
 	r.Floor("R15c", total, 40)
 
+	// ---- R15e ---------------------------------------------------------------------------------
+	c15BreakOnError(c, r, dbgIface)
+
 	// ---- R15d: the debugger lock is never re-acquired while held -------------------------------
 	nRe := checkReentrance(c, r, lfs, "R15d", func(class string) bool { return strings.HasPrefix(class, "interpreter.ecalDebugger") })
 	r.Extra["reentrance_call_sites"] = nRe
@@ -273,4 +276,107 @@ func nilTested(v ssa.Value, at ssa.Instruction) bool {
 		}
 	}
 	return false
+}
+
+// ---- R15e: break-on-error applies to errors, not to control signals ------------------------------
+
+// The evaluator reports the error of every function call to the debugger. Return values, loop
+// control and the iterator protocol of range() travel the same error channel. A suspension taken
+// because "break on error is set and the error is non-nil" must therefore be gated by the
+// classification of the error (the same classifier that keeps these signals away from `except`).
+func c15BreakOnError(c *Ctx, r *Result, dbgIface *types.Interface) {
+	fBoE := c.Field("interpreter", "ecalDebugger", "breakOnError")
+	if fBoE == nil {
+		r.Undecide("R15e: ecalDebugger.breakOnError not found")
+		return
+	}
+	classifiers := errorClassifiers(c)
+	n := 0
+	for i := 0; i < dbgIface.NumMethods(); i++ {
+		for _, fn := range c.Implementations(dbgIface, dbgIface.Method(i).Name()) {
+			if c.PkgOf(fn) != "interpreter" {
+				continue
+			}
+			var errParam *ssa.Parameter
+			for _, p := range fn.Params {
+				if p.Type().String() == "error" {
+					errParam = p
+				}
+			}
+			if errParam == nil {
+				continue
+			}
+			var waits []ssa.Instruction
+			allInstrs(fn, func(in ssa.Instruction) {
+				if op, ok := condOpOf(in); ok && op.Kind == "Wait" {
+					waits = append(waits, in)
+				}
+			})
+			if len(waits) == 0 {
+				continue
+			}
+			key := c.FuncKey(fn)
+			isWait := map[ssa.Instruction]int{}
+			for i, w := range waits {
+				isWait[w] = i
+			}
+			ungated := map[int]bool{}
+			onErrPath := map[int]bool{}
+			o := &PathOracle{NonNilParams: false}
+			o.Visit = func(st *PState, in ssa.Instruction) {
+				i, ok := isWait[in]
+				if !ok {
+					return
+				}
+				// is this wait reached because break-on-error is set and the error is non-nil?
+				if st.Get(errParam, o) != AvNonNil {
+					return
+				}
+				boe := false
+				for v, a := range st.vals {
+					if ld, isLoad := v.(*ssa.UnOp); isLoad && a == AvNonNil {
+						if fa, isFA := ld.X.(*ssa.FieldAddr); isFA && fieldVar(fa) == fBoE {
+							boe = true
+						}
+					}
+				}
+				if !boe {
+					return
+				}
+				onErrPath[i] = true
+				gated := false
+				allInstrs(fn, func(x ssa.Instruction) {
+					if call, isCall := x.(*ssa.Call); isCall {
+						if cf := call.Call.StaticCallee(); cf != nil && classifiers[cf] && len(call.Call.Args) == 1 &&
+							st.canon(call.Call.Args[0]) == st.canon(errParam) && st.Get(call, o) == AvNil {
+							gated = true
+						}
+					}
+				})
+				if !gated {
+					ungated[i] = true
+				}
+			}
+			if !ExplorePaths(fn, o) {
+				r.Undecide("R15e: path exploration of %s exceeded its state bound", key)
+				continue
+			}
+			for i, w := range waits {
+				if !onErrPath[i] {
+					continue
+				}
+				n++
+				site := fmt.Sprintf("%s#break-on-error#%d", key, i)
+				pos := c.Pos(c.InstrPos(w))
+				if ungated[i] {
+					r.Instance("R15e", site, pos, "finding", "suspension on an unclassified error", true)
+					r.Report(Finding{Rule: "R15e", Site: site, Pos: pos,
+						Msg: key + ": a thread is suspended because break-on-error is set and the reported error is non-nil, without the error having been classified: the iterator signal of range(), `return`, `break` and `continue` travel the same channel — a program with `for i in range(..)` stops under the debugger's default settings although no break point, step command or error applies"})
+				} else {
+					r.Instance("R15e", site, pos, "ok", "on every such path the error was classified as not being a control signal", true)
+				}
+			}
+		}
+	}
+	r.Floor("R15e", n, 1)
 }
